@@ -26,3 +26,5 @@ from . import gen_cuboid; GENERATORS["GenCuboid"] = gen_cuboid.generate
 from . import gen_core; GENERATORS["GenCore"] = gen_core.generate
 from . import gen_ifaces; GENERATORS["GenIfaces"] = gen_ifaces.generate
 from . import gen_cylmask; GENERATORS["GenCylMask"] = gen_cylmask.generate
+from . import gen_l2arith; GENERATORS["GenL2Arith"] = gen_l2arith.generate
+from . import gen_flat; GENERATORS["GenFlat"] = gen_flat.generate
